@@ -344,14 +344,22 @@ static std::vector<int> sharpAlphabet()
     return a;
 }
 
-static void dfs(W& w, const Sys& s, std::vector<int>& path, int target, const std::vector<int>& alpha)
+// look: every lookup and getter is exercised after EVERY operation of the history, not only at its end (an observation is an
+// operation too: whatever a lookup remembers must not outlive the next update or removal)
+static void lookAround(const Sys& s)
+{
+    W q;
+    q.single = true;
+    judge(q, s, "");
+}
+static void dfs(W& w, const Sys& s, std::vector<int>& path, int target, const std::vector<int>& alpha, bool look = false)
 {
     for (int k : alpha)
     {
         path.push_back(k);
         if ((int) path.size() == target)
         {
-            auto desc = [&] { return showPath(path); };
+            auto desc = [&] { return showPath(path) + (look ? ";look=1" : ""); };
             if (w.begin_case(desc))
             {
                 Sys n = s;   // copy of the real Status object
@@ -367,7 +375,9 @@ static void dfs(W& w, const Sys& s, std::vector<int>& path, int target, const st
         {
             Sys n = s;
             apply(n, kOps[k]);
-            dfs(w, n, path, target, alpha);
+            if (look)
+                lookAround(n);
+            dfs(w, n, path, target, alpha, look);
         }
         path.pop_back();
     }
@@ -614,8 +624,52 @@ int main(int argc, char** argv)
             });
             if (run.out_of_time())
                 break;
+            if (d <= (thorough ? 7 : 6))
+                run.round(fmt("the same with every lookup and getter exercised after every operation: all sequences of length %d", d), nout, [&, d](W& w, uint64_t o) {
+                    Sys s;
+                    std::vector<int> path = {sharp[o / ((uint64_t) ns * ns)], sharp[(o / ns) % ns], sharp[o % ns]};
+                    for (int k : path)
+                    {
+                        apply(s, kOps[k]);
+                        lookAround(s);
+                    }
+                    dfs(w, s, path, d, sharp, true);
+                });
+            if (run.out_of_time())
+                break;
         }
     }
+    // long histories: whatever the tracker counts on the side (updates, lookups, generations) passes every power of two up to 2^17
+    run.round("long histories: N updates and lookups cycling through all devices / interfaces / variants, judged at N around every power of two up to 131073, then removals", 4, [&](W& w, uint64_t o) {
+        auto desc = [&] { return fmt("long=%d", (int) o); };
+        if (!w.begin_case(desc))
+            return;
+        Sys s;
+        std::vector<int> cyc;
+        for (int k = 0; k < nops; ++k)
+            if (kOps[k].kind == 'C' || kOps[k].kind == 'I' || (o >= 2 && (kOps[k].kind == 'D' || kOps[k].kind == 'O')))
+                cyc.push_back(k);
+        uint64_t next = 1;
+        for (uint64_t i = 0; i < 131074; ++i)
+        {
+            apply(s, kOps[cyc[(i * (o % 2 ? 7 : 1)) % cyc.size()]]);
+            if (o % 2)
+                lookAround(s);
+            if (i + 2 >= next && i <= next + 1)
+                judge(w, s, fmt("after %llu updates", (unsigned long long) i + 1));
+            if (i > next + 1)
+                next *= 2;
+            w.add(mc::C_TRANS, 1);
+        }
+        for (int k = 0; k < nops; ++k)
+            if (kOps[k].kind == 'r' || kOps[k].kind == 'R')
+            {
+                apply(s, kOps[k]);
+                judge(w, s, "removals after the long history");
+            }
+        w.add(mc::C_TRACES, 1);
+        w.outcome(stateHash(s, 13));
+    });
     // fault injection at every allocation of every update (memory exhaustion inside the tracker)
     {
         const std::vector<int> sharp = sharpAlphabet();
